@@ -176,7 +176,8 @@ func c12SignedExtensions(r *Run, wf *ssa.Function, cs []ssa.CallInstruction, lea
 			at := r.D.D(args[s.param])
 			switch {
 			case at == "p1" && s.path == ".Extensions":
-				r.Check(k+":signed-extensions", !t8ParamWritten(wf, 1), s.where, "the signed structure takes its extensions from the SCT it is given ("+s.term+" of "+FuncName(v)+"), and that is the wrapper's own SCT parameter, unmodified")
+				w := t8ParamWritten(wf, 1)
+				r.Check(k+":signed-extensions", !w, s.where, "the signed structure takes its extensions from the SCT it is given ("+s.term+" of "+FuncName(v)+"), and that is the wrapper's own SCT parameter"+map[bool]string{false: ", unmodified", true: " — but " + FuncName(wf) + " assigns to that parameter, so what is verified need not be the SCT that was received and is returned"}[w])
 			case baseAlloc(args[s.param]) != nil && s.path == ".Leaf.TimestampedEntry.Extensions":
 				fromLeaf = true
 				// the entry's leaf is the wrapper's leaf (the :entry obligation); its extensions are the SCT's
@@ -184,7 +185,7 @@ func c12SignedExtensions(r *Run, wf *ssa.Function, cs []ssa.CallInstruction, lea
 				for _, st := range leafStores {
 					ok = ok && r.D.D(st.Val) == "p1.Extensions"
 				}
-				r.Check(k+":signed-extensions", ok && !t8ParamWritten(wf, 1), s.where, fmt.Sprintf("the signed structure takes its extensions from the leaf of the entry (%s of %s), so the leaf the wrapper builds must carry the SCT's extensions: %d store(s) of p1.Extensions to %s in %s%s", s.term, FuncName(v), len(leafStores), leafAddr, FuncName(wf),
+				r.Check(k+":signed-extensions", ok && !t8ParamWritten(wf, 1), s.where, fmt.Sprintf("the signed structure takes its extensions from the leaf of the entry (%s of %s), so the leaf the wrapper builds must carry the SCT's extensions: %d store(s) to %s in %s, each of which must store p1.Extensions%s", s.term, FuncName(v), len(leafStores), leafAddr, FuncName(wf),
 					map[bool]string{true: "", false: " — the extensions field of the response is not part of what the client verifies: an SCT whose extensions were not signed is returned, one whose extensions were signed is refused"}[ok]))
 			default:
 				r.Fail(k+":signed-extensions", s.where, "the Extensions of the signed structure are "+at+s.path+" in "+FuncName(wf)+" (via "+s.term+" of "+FuncName(v)+"): neither p1.Extensions (the SCT under verification) nor the extensions of the leaf built for it")
@@ -530,6 +531,9 @@ func (e *t8R) needBool(v ssa.Value, want bool, depth int) (t8Facts, bool) {
 		}
 		// a result variable (functions with defer keep their results in memory): the one value stored
 		if a, ok := x.X.(*ssa.Alloc); ok && x.Op == token.MUL {
+			if w := t8BlockStore(a, x); w != nil {
+				return e.needBool(w, want, depth+1)
+			}
 			if w := uniqueStore(a); w != nil {
 				return e.needBool(w, want, depth+1)
 			}
@@ -608,6 +612,34 @@ func (e *t8R) needBool(v ssa.Value, want bool, depth int) (t8Facts, bool) {
 		return e.calleeYields(callee, want, depth+1)
 	}
 	return out, false
+}
+
+// t8BlockStore: the value the load ld of the local a sees when the last whole-value store into a in
+// ld's own block precedes it with no call in between that could write a (a's address is only ever used
+// by loads and whole-value stores).
+func t8BlockStore(a *ssa.Alloc, ld *ssa.UnOp) ssa.Value {
+	for _, ref := range *a.Referrers() {
+		switch x := ref.(type) {
+		case *ssa.DebugRef, *ssa.UnOp:
+		case *ssa.Store:
+			if x.Addr != ssa.Value(a) {
+				return nil
+			}
+		default:
+			return nil
+		}
+	}
+	b := ld.Block()
+	var last ssa.Value
+	for _, in := range b.Instrs {
+		if in == ssa.Instruction(ld) {
+			return last
+		}
+		if st, ok := in.(*ssa.Store); ok && st.Addr == ssa.Value(a) {
+			last = st.Val
+		}
+	}
+	return nil
 }
 
 // bind maps the parameters of callee to the arguments of one call; false when they are already bound
@@ -932,11 +964,15 @@ func c12RememberedVerdict(r *Run, fn *ssa.Function, ver, conv ssa.CallInstructio
 	r.Floor("pieces of client state the verdict of VerifySTHSignature depends on (read off its SSA)", nClient, 2)
 
 	// ---- bypass: STH-yielding returns reachable without executing the verification
+	// (a walk, not plain graph reachability: in the merged form "convert; if err == nil { err = verify };
+	// if err != nil { return }" the way round the verification carries the conversion's non-nil error
+	// into the merged test, so it cannot go on to the success return)
 	without := map[*ssa.BasicBlock]bool{ver.Block(): true}
-	g := t8Reach(fn, without, nil)
+	g := r.t8WalkAvoiding(fn, without)
+	r.Valuations++
 	var bypass []*ssa.Return
 	for _, ret := range yield {
-		if g[ret.Block()] {
+		if g.Blocks[ret.Block()] {
 			bypass = append(bypass, ret)
 		}
 	}
@@ -955,6 +991,57 @@ func c12RememberedVerdict(r *Run, fn *ssa.Function, ver, conv ssa.CallInstructio
 			fmt.Fprintf(os.Stderr, "t8 obl ok=%v %s @%s: %s\n", o.OK, o.Key, o.Where, o.Detail)
 		}
 	}
+}
+
+// t8WalkAvoiding: the blocks that may execute from the entry of fn without entering a block of
+// `without`, branch conditions decided as walkR decides them under the empty valuation (a nil test of
+// a merged value by the status of the value arriving over the edge taken).
+func (r *Run) t8WalkAvoiding(fn *ssa.Function, without map[*ssa.BasicBlock]bool) *Reach {
+	type st struct {
+		b    *ssa.BasicBlock
+		pred int
+	}
+	out := &Reach{Blocks: map[*ssa.BasicBlock]bool{}, Edges: map[[2]int]bool{}}
+	if len(fn.Blocks) == 0 || without[fn.Blocks[0]] {
+		return out
+	}
+	seen := map[st]bool{}
+	work := []st{{fn.Blocks[0], -1}}
+	for len(work) > 0 {
+		c := work[len(work)-1]
+		work = work[:len(work)-1]
+		if seen[c] {
+			continue
+		}
+		seen[c] = true
+		out.Blocks[c.b] = true
+		succs := c.b.Succs
+		if len(c.b.Instrs) > 0 {
+			if ifi, ok := c.b.Instrs[len(c.b.Instrs)-1].(*ssa.If); ok && len(c.b.Succs) == 2 {
+				switch r.evalR(ifi.Cond, Sigma{}, c.b, c.pred) {
+				case T:
+					succs = c.b.Succs[:1]
+				case F:
+					succs = c.b.Succs[1:2]
+				}
+			}
+		}
+		for _, sb := range succs {
+			if without[sb] {
+				continue
+			}
+			pi := -1
+			for i, p := range sb.Preds {
+				if p == c.b {
+					pi = i
+					break
+				}
+			}
+			out.Edges[[2]int{c.b.Index, sb.Index}] = true
+			work = append(work, st{sb, pi})
+		}
+	}
+	return out
 }
 
 func c12Bypass(r *Run, e *t8R, fn *ssa.Function, ver ssa.CallInstruction, ret *ssa.Return, inputs []t8Input, head t8AP, reachNon *Reach, without map[*ssa.BasicBlock]bool, rk string) {
@@ -1115,28 +1202,32 @@ func c12Bypass(r *Run, e *t8R, fn *ssa.Function, ver ssa.CallInstruction, ret *s
 		r.Check(rk+":key["+lbl+"]", covered, r.Where(ret), detail)
 	}
 	// ---- fill-complete, private, lock
-	var sites []ssa.Instruction
-	stored := map[ssa.Instruction]map[*types.Var]bool{}
+	// (the stores of one fill stand in one basic block: nothing can come between them but the stores)
+	var blocks []*ssa.BasicBlock
+	stored := map[*ssa.BasicBlock]map[*types.Var]bool{}
+	first := map[*ssa.BasicBlock]*ssa.Store{}
 	for _, f := range recFields {
 		for _, fl := range fills[f] {
-			if fl.reset || fl.why != "" {
+			if fl.reset {
 				continue
 			}
-			if stored[fl.site] == nil {
-				stored[fl.site] = map[*types.Var]bool{}
-				sites = append(sites, fl.site)
+			b := fl.st.Block()
+			if stored[b] == nil {
+				stored[b] = map[*types.Var]bool{}
+				first[b] = fl.st
+				blocks = append(blocks, b)
 			}
-			stored[fl.site][f] = true
+			stored[b][f] = true
 		}
 	}
-	for _, site := range sites {
+	for _, b := range blocks {
 		var missing []string
 		for _, f := range recFields {
-			if !stored[site][f] {
+			if !stored[b][f] {
 				missing = append(missing, f.Name())
 			}
 		}
-		r.Check(rk+":fill-complete", len(missing) == 0, r.Where(site), "a fill stores every record member the key compares with, so the members always describe one verification"+map[bool]string{true: "", false: "; not stored here: " + strings.Join(missing, ", ") + " (the record then pairs the new head with an older verifier / an older head with the new verifier)"}[len(missing) == 0])
+		r.Check(rk+":fill-complete", len(missing) == 0, r.Where(first[b]), "a fill stores every record member the key compares with, so the members always describe one verification"+map[bool]string{true: "", false: "; not stored here: " + strings.Join(missing, ", ") + " (the record then pairs the new head with an older verifier / an older head with the new verifier)"}[len(missing) == 0])
 	}
 	for _, c := range valid {
 		for _, in := range inputs {
@@ -1155,7 +1246,9 @@ func c12Bypass(r *Run, e *t8R, fn *ssa.Function, ver ssa.CallInstruction, ret *s
 			}
 		}
 	}
-	e.lockDiscipline(fn, recFields, rk)
+	if len(recFields) > 0 {
+		e.lockDiscipline(fn, recFields, rk)
+	}
 }
 
 // fillsOf: every store, module-wide, to the member f, judged as a fill of the record.
